@@ -28,6 +28,7 @@ mod c17;
 mod e01;
 mod e03;
 mod e02;
+mod e04;
 mod c05;
 
 #[global_allocator]
@@ -68,6 +69,7 @@ fn props() -> Vec<Prop> {
         Prop { id: "E01", run: e01::run, gen: e01::gen },
         Prop { id: "E03", run: e03::run, gen: e03::gen },
         Prop { id: "E02", run: e02::run, gen: e02::gen },
+        Prop { id: "E04", run: e04::run, gen: e04::gen },
     ]
 }
 
